@@ -23,6 +23,8 @@ from harness import core
 # concrete tick lengths (gamma): dyadic (float arithmetic exact) and arbitrary reals
 TAUS = [2.0**-6, 2.0**-3, 1.0, 0.05, 0.1, 1.0 / 3.0, 0.7, 2.0**4]
 ALL_SUBS = (1, 2, 3, 4, 8)
+SUBS18 = (1, 2, 3, 4, 5, 6, 7, 8)
+INT_MAX = 2**31 - 1
 POISON = 7  # table entry of a (pixel, level) the scheme must never ask for
 SENTINEL = 12345.0  # returned for a point the probe cannot attribute to (unmasked pixel, known sub size)
 
@@ -46,6 +48,7 @@ INVARIANT ConstantsReproduced
 INVARIANT AreasSumToUnmaskedArea
 INVARIANT CodeFormulationAgrees
 INVARIANT DispatchConsistent
+INVARIANT EqualBlocksAreNotOwnBlocks
 """
 
 MC_B_CFG = """CONSTANTS
@@ -96,8 +99,8 @@ def _tla_seq(xs):
 
 
 def _families_def(fams):
-    return "{" + ", ".join(f"<<{h}, {w}, {_tla_set(s)}, {'TRUE' if uni else 'FALSE'}, {{{', '.join(_tla_seq(g) for g in gs)}}}>>"
-                           for h, w, s, uni, gs in fams) + "}"
+    return "{" + ", ".join(f'<<{h}, {w}, {_tla_set(s)}, "{sel}", {{{", ".join(_tla_seq(g) for g in gs)}}}>>'
+                           for h, w, s, sel, gs in fams) + "}"
 
 
 def _b_defs(schedules):
@@ -219,29 +222,106 @@ def _F(fn, y, x):
         return np.where(c[0] * y + c[1] * x + c[2] > 0, c[3], c[4])
     if k == "mod":
         return np.mod(c[0] * y + c[1] * x + c[2], c[3]) - c[4]
+    if k == "ind":
+        return c[0] * y + c[1] * x + c[2] > 0
+    if k == "disc":
+        return c[0] * (y - c[2]) ** 2 + c[1] * (x - c[3]) ** 2 < c[4]
+    if k == "floor":
+        return np.floor_divide(c[0] * y + c[1] * x + c[2], c[3])
     raise ValueError(k)
 
 
-def _random_fn(rng, kinds=("affine", "quad", "abs", "step", "mod"), positive=False):
-    k = kinds[int(rng.integers(0, len(kinds)))]
+def _extent(geo):
+    """Largest |y| and |x| (ticks) of any point of the frame."""
+    return abs(geo["oy"]) + (geo["h"] * geo["sy"]) // 2, abs(geo["ox"]) + (geo["w"] * geo["sx"]) // 2
+
+
+def _fn_bound(fn, Ry, Rx):
+    """Upper bound of |value| and of every intermediate the specification computes, on the frame."""
+    c = [abs(int(v)) for v in fn["c"]]
+    k = fn["kind"]
+    if k in ("affine", "ind"):
+        return c[0] * Ry + c[1] * Rx + c[2]
+    if k == "quad":
+        return c[0] * Ry * Ry + c[1] * Ry * Rx + c[2] * Rx + c[3]
+    if k == "abs":
+        return c[0] * Ry + c[1] * Rx + c[2] + c[3]
+    if k == "step":
+        return max(c[0] * Ry + c[1] * Rx + c[2], c[3], c[4])
+    if k == "mod":
+        return c[0] * Ry + c[1] * Rx + c[2] + c[3] + c[4]
+    if k == "disc":
+        return c[0] * (Ry + c[2]) ** 2 + c[1] * (Rx + c[3]) ** 2 + c[4]
+    if k == "floor":
+        return c[0] * Ry + c[1] * Rx + c[2]
+    raise ValueError(k)
+
+
+ALL_KINDS = ("affine", "quad", "abs", "step", "mod", "ind", "disc", "floor")
+# element type the user function returns: float profiles, integer profiles (np.where(r < R, 1, 0), floor(...).astype(int),
+# counts) and boolean indicators
+DTYPES = {"affine": ("float", "float", "int"), "quad": ("float", "float", "int"), "abs": ("float", "int"),
+          "step": ("float", "int"), "mod": ("float", "int"), "ind": ("bool", "int", "float"),
+          "disc": ("bool", "int", "float"), "floor": ("int", "int", "float")}
+NP_DTYPE = {"float": np.float64, "int": np.int64, "bool": np.bool_}
+
+
+def _random_fn(rng, geo, kinds=ALL_KINDS, positive=False, summed=64, factor=1, bound_geo=None):
+    """A random user function on the frame `geo` whose values (x `summed` sub-values x `factor`) and intermediates stay
+    inside TLC's 32-bit integers."""
     r = lambda lo, hi: int(rng.integers(lo, hi + 1))
-    if k == "affine":
-        c = [r(-3, 3), r(-3, 3), r(-9, 9)]
-        if positive:
-            c[2] = r(0, 400)
-    elif k == "quad":
-        c = [r(-1, 1), r(-1, 1), r(-3, 3), r(-9, 9)]
-    elif k == "abs":
-        c = [r(-3, 3), r(-3, 3), r(-20, 20), r(0, 60)]
-        if positive:
-            c[3] = r(-5, 20)
-    elif k == "step":
-        c = [r(-2, 2), r(-2, 2), r(-30, 30), r(-3, 9), r(-3, 9)]
-        if c[0] == 0 and c[1] == 0:
-            c[0] = 1
-    else:
-        c = [r(-3, 3), r(-3, 3), r(-9, 9), r(2, 40), r(0, 10)]
-    return {"kind": k, "c": c}
+    Ry, Rx = _extent(bound_geo or geo)
+    for attempt in range(40):
+        k = kinds[int(rng.integers(0, len(kinds)))]
+        if k == "affine":
+            c = [r(-3, 3), r(-3, 3), r(-9, 9)]
+            if positive:
+                c[2] = r(0, 400)
+        elif k == "quad":
+            c = [r(-1, 1), r(-1, 1), r(-3, 3), r(-9, 9)]
+        elif k == "abs":
+            c = [r(-3, 3), r(-3, 3), r(-20, 20), r(0, 60)]
+            if positive:
+                c[3] = r(-5, 20)
+        elif k == "step":
+            c = [r(-2, 2), r(-2, 2), r(-30, 30), r(-3, 9), r(-3, 9)]
+            if c[0] == 0 and c[1] == 0:
+                c[0] = 1
+        elif k == "mod":
+            c = [r(-3, 3), r(-3, 3), r(-9, 9), r(2, 40), r(0, 10)]
+        elif k == "ind":
+            # a half plane through the neighbourhood of a random pixel of the frame
+            c = [r(-3, 3), r(-3, 3), 0]
+            if c[0] == 0 and c[1] == 0:
+                c[1] = 1
+            y0 = geo["oy"] + r(-geo["h"], geo["h"]) * (geo["sy"] // 4)
+            x0 = geo["ox"] + r(-geo["w"], geo["w"]) * (geo["sx"] // 4)
+            c[2] = -(c[0] * y0 + c[1] * x0) + r(-1, 1)
+        elif k == "disc":
+            # a top-hat of about a pixel, centred on a quarter-pixel lattice point (pixel centres, corners, edges)
+            y0 = geo["oy"] + r(-geo["h"], geo["h"]) * (geo["sy"] // 4)
+            x0 = geo["ox"] + r(-geo["w"], geo["w"]) * (geo["sx"] // 4)
+            rad = max(2, (min(geo["sy"], geo["sx"]) * r(2, 14)) // 8)
+            c = [r(1, 2), r(1, 2), y0, x0, rad * rad]
+        else:  # floor: a staircase with steps of a fraction of a pixel
+            c = [r(-3, 3), r(-3, 3), r(-9, 9), max(2, (min(geo["sy"], geo["sx"]) * r(1, 6)) // 4)]
+            if c[0] == 0 and c[1] == 0:
+                c[0] = 1
+            if positive:
+                c[2] = c[3] * r(1, 6) + (abs(c[0]) * Ry + abs(c[1]) * Rx)
+        fn = {"kind": k, "c": c}
+        b = _fn_bound(fn, Ry, Rx)
+        if k == "disc":
+            ok = b < INT_MAX // 2
+        elif k == "ind":
+            ok = b < INT_MAX // 2
+        else:
+            ok = b * summed * factor < INT_MAX // 2
+        if ok:
+            dts = DTYPES[k]
+            fn["dt"] = dts[int(rng.integers(0, len(dts)))]
+            return fn
+    return {"kind": "step", "c": [1, 0, -geo["oy"], 1, 0], "dt": "int"}
 
 
 class Probe:
@@ -249,7 +329,8 @@ class Probe:
     the sub size (through the sub-pixel spacing inside that pixel), returns value(pixel, sub size, y, x) and logs
     which pixels were asked at which sub size.  It is the linearisation-point probe of the iterative scheme."""
 
-    def __init__(self, rec, value):
+    def __init__(self, rec, value, dt="float"):
+        self.dtype = NP_DTYPE[dt]
         self.tau = TAUS[rec["ti"]]
         self.h, self.w, self.sy, self.sx = rec["h"], rec["w"], rec["sy"], rec["sx"]
         self.yT = rec["oy"] + (self.h * self.sy) // 2  # top edge of the frame
@@ -291,7 +372,7 @@ class Probe:
             self.bad += int(np.count_nonzero(~recognised))
         self.bad += int(np.count_nonzero(~known))
         self.calls.append([[int(m), sorted(px)] for m, px in sorted(per_n.items())])
-        return out
+        return out.astype(self.dtype)
 
     def evals(self):
         return [{"n": m, "px": px} for call in self.calls for m, px in call]
@@ -375,7 +456,7 @@ def rec_partition(rec):
 
     _check_lattice(rec, rec["sub"])
     tau = TAUS[rec["ti"]]
-    out = dict(rec, p="C09", api="partition", via=rec.get("via", "sampler"), grid=[], off=0, sfs=[], areas=[], total=-1, exc="", hist=0)
+    out = dict(rec, p="C09", api="partition", via=rec.get("via", "sampler"), grid=[], off=0, sfs=[], areas=[], total=-1, exc="", hist=0, dt="float")
     try:
         mask = _mask(rec)
         if out["via"] == "over_sampling_shared":
@@ -400,11 +481,11 @@ def rec_partition(rec):
 def rec_bin(rec):
     import autoarray as aa
 
-    out = dict(rec, p="C09", api="bin", num=[], off=0, exc="", hist=0)
+    out = dict(rec, p="C09", api="bin", num=[], off=0, exc="", hist=0, dt=rec.get("dt", "float"))
     try:
         mask = _mask(rec)
         os_ = aa.OverSamplerUniform(mask=mask, sub_size=_sub_size(rec, mask))
-        vals = np.array(rec["vals"], dtype=float)
+        vals = np.array(rec["vals"]).astype(NP_DTYPE[out["dt"]])  # float, integer or boolean sub-values
         arr = vals if rec["via"] == "ndarray" else aa.ArrayIrregular(values=vals)
         b = np.array(os_.binned_array_2d_from(array=arr), dtype=float).ravel()
         sub2 = np.array(rec["sub"], dtype=float) ** 2
@@ -457,10 +538,10 @@ def rec_func(rec):
     import autoarray as aa
 
     _check_lattice(rec, rec["sub"])
-    out = dict(rec, p="C09", api="func", num=[], off=0, bad=0, exc="", hist=0)
+    out = dict(rec, p="C09", api="func", num=[], off=0, bad=0, exc="", hist=0, dt=rec["fn"].get("dt", "float"))
     try:
         mask = _mask(rec)
-        probe = Probe(rec, _lattice_value(rec["fn"]))
+        probe = Probe(rec, _lattice_value(rec["fn"]), out["dt"])
 
         def over_sampling():
             if not rec.get("share"):
@@ -496,27 +577,31 @@ def records_a(inst, seed, n_func=2):
     if pvia == "sampler":
         recs.append(rec_partition(base))
     total = sum(s * s for s in sub)
+    bdt = ("float", "int", "bool")[int(rng.integers(0, 3))]  # element type of the sub-values handed to the binning
     vals = rng.integers(-9, 10, size=total)
-    if rng.integers(0, 4) == 0:
-        vals = np.arange(1, total + 1)  # tags: every sub-value distinct
-    recs.append(rec_bin(dict(base, vals=[int(x) for x in vals], via=("ndarray", "irregular")[int(rng.integers(0, 2))])))
+    if rng.integers(0, 3) == 0:
+        vals = np.arange(1, total + 1)  # position tags: every sub-value distinct
+    if bdt == "bool":
+        vals = rng.integers(0, 2, size=total)
+    recs.append(rec_bin(dict(base, vals=[int(x) for x in vals], dt=bdt, via=("ndarray", "irregular")[int(rng.integers(0, 2))])))
     vias = list(rng.permutation(len(FUNC_VIAS))[:n_func])
     for v in vias:
         via = FUNC_VIAS[int(v)]
-        real = dict(base, fn=_random_fn(rng), via=via)
+        real = dict(base, fn=_random_fn(rng, base), via=via)
         if via not in SHARED_VIAS:
             recs.append(rec_func(real))
             continue
         # the shared OverSamplingUniform serves a decoy grid (same layout, other scales and origin) before the real
         # grid -- or after it; both uses are judged
         real["share"] = True
-        dec = dict(_decoy(base, sub), fn=_random_fn(rng), via=via, share=True)
+        dec = _decoy(base, sub)
+        dec = dict(dec, fn=_random_fn(rng, dec), via=via, share=True)
         for r in ([dec, real] if rng.integers(0, 3) > 0 else [real, dec]):
             recs.append(rec_func(r))
     if pvia != "sampler":
         recs.append(rec_partition(dict(base, via=pvia)))
     if all(s == 1 for s in sub):
-        recs.append(rec_func(dict(base, fn=_random_fn(rng), via="decorator_default")))
+        recs.append(rec_func(dict(base, fn=_random_fn(rng, base), via="decorator_default")))
     return recs
 
 
@@ -545,14 +630,24 @@ def random_instances_a(rng, n, max_side):
         if not m.any():
             m[int(rng.integers(0, h)), int(rng.integers(0, w))] = True
         u = [int(x) for x in np.flatnonzero(m.ravel())]
-        pool = ALL_SUBS if h * w <= 16 else (1, 2, 3, 4)
-        style = k % 3
+        pool = SUBS18
+        style = k % 4
         if style == 0:
             sub = [int(rng.choice(pool))] * len(u)
-        elif style == 1:
+        elif style == 1:  # any per-pixel map over 1..8, not monotone in anything
             sub = [int(x) for x in rng.choice(pool, size=len(u))]
-        else:  # adaptive-like: large in the middle, one at the rim
-            sub = [int(pool[-1]) if (abs(c // w - (h - 1) / 2) <= 1 and abs(c % w - (w - 1) / 2) <= 1) else 1 for c in u]
+        elif style == 2:  # adaptive-like: large in the middle, one at the rim
+            big = int(rng.choice((4, 5, 8)))
+            sub = [big if (abs(c // w - (h - 1) / 2) <= 1 and abs(c % w - (w - 1) / 2) <= 1) else 1 for c in u]
+        else:  # a non-uniform map with as many sub-pixels as a uniform one: 5,5 <-> 1,7 and 3,3,3 <-> 1,1,5
+            s0 = int(rng.choice((5, 5, 3)))
+            sub = [s0] * len(u)
+            free = list(rng.permutation(np.arange(0 if rng.integers(0, 2) else 1, len(u))))
+            while (s0 == 5 and len(free) >= 2) or (s0 == 3 and len(free) >= 3):
+                if rng.integers(0, 3) == 0 and sub != [s0] * len(u):
+                    break
+                for idx, val in zip([free.pop() for _ in range(2 if s0 == 5 else 3)], (1, 7) if s0 == 5 else (1, 1, 5)):
+                    sub[int(idx)] = val
         L = _lcm(sub)
         my, mx = (int(rng.integers(1, 3)), int(rng.integers(1, 3))) if L <= 12 else (1, 1)
         out.append(dict(h=h, w=w, u=u, sub=sub, sy=4 * L * my, sx=4 * L * mx,
@@ -597,10 +692,10 @@ ITER_VIAS = ("sampler", "decorator", "decorator_to_array")
 def rec_iterate(rec):
     """Table function: rec['v'][p] = [value at sub size 1, value at schedule entry 1, ...]."""
     _check_lattice(rec, rec["sched"])
-    rec = dict(rec, hist=0, tie_exact=_tie_exact(rec["fa"]))
+    rec = dict(rec, hist=0, tie_exact=_tie_exact(rec["fa"]), dt=rec.get("dt", "float"))
     out = dict(rec, p="C09", api="iterate", result=[], evals=[], off=0, bad=0, exc="")
     try:
-        probe = Probe(rec, _table_value(rec["v"], rec["sched"]))
+        probe = Probe(rec, _table_value(rec["v"], rec["sched"]), rec["dt"])
         res = np.array(_iterate_call(rec, probe), dtype=float).ravel()
         out["hist"] = rec["hist"]
         num, off = _alpha(res, 1.0, tol=1e-9)
@@ -615,10 +710,10 @@ def rec_iterate(rec):
 def rec_iterate_fn(rec):
     """Function of the lattice point; the trace spec computes the table itself.  Values scaled by den = max sub^2."""
     _check_lattice(rec, rec["sched"])
-    rec = dict(rec, hist=0, tie_exact=_tie_exact(rec["fa"]))
+    rec = dict(rec, hist=0, tie_exact=_tie_exact(rec["fa"]), dt=rec["fn"].get("dt", "float"))
     out = dict(rec, p="C09", api="iterate_fn", result=[], evals=[], off=0, bad=0, exc="")
     try:
-        probe = Probe(rec, _lattice_value(rec["fn"]))
+        probe = Probe(rec, _lattice_value(rec["fn"]), rec["dt"])
         res = np.array(_iterate_call(rec, probe), dtype=float).ravel()
         out["hist"] = rec["hist"]
         num, off = _alpha(res * rec["den"], 1.0, tol=1e-6)
@@ -661,7 +756,7 @@ def behaviour_to_record(states, seed, k):
     v = [list(vp) + [POISON] * (len(sched) + 1 - len(vp)) for vp in last["v"]]
     ev = [sorted(int(p) - 1 for p in (e["__set__"] if isinstance(e, dict) else e)) for e in last["evald"]]
     return dict(h=h, w=w, u=u, **_geometry_b(rng, sched), sched=list(sched), fa=list(cfg["fa"]), ra=int(cfg["ra"]),
-                v=v, via=ITER_VIAS[k % len(ITER_VIAS)], has_m=True, m_result=list(last["result"]), m_evald=ev,
+                v=v, dt=("float", "int")[(k // 3) % 2], via=ITER_VIAS[k % len(ITER_VIAS)], has_m=True, m_result=list(last["result"]), m_evald=ev,
                 m_actions=[a if a != "?" else f"Level({st['level']})" for a, st in states])
 
 
@@ -692,7 +787,7 @@ def random_iterate_records(rng, n, max_side):
         fa = ((1, 2), (3, 4), (99, 100), (9, 10), (1, 1))[int(rng.integers(0, 5))]
         ra = (-1, -1, 1, 2, 0)[int(rng.integers(0, 5))]
         out.append(dict(h=h, w=w, u=u, **_geometry_b(rng, sched), sched=sched, fa=list(fa), ra=int(ra),
-                        v=[[int(x) for x in row] for row in v], via=ITER_VIAS[k % len(ITER_VIAS)], has_m=False,
+                        dt=("float", "int")[k % 2], v=[[int(x) for x in row] for row in v], via=ITER_VIAS[k % len(ITER_VIAS)], has_m=False,
                         m_result=[], m_evald=[]))
     return out
 
@@ -709,7 +804,9 @@ def random_iterate_fn_records(rng, n, max_side):
         L = _lcm(sched)
         geo = dict(sy=4 * L * int(rng.integers(1, 3)), sx=4 * L * int(rng.integers(1, 3)),
                    oy=2 * int(rng.integers(-9, 10)), ox=2 * int(rng.integers(-9, 10)), ti=int(rng.integers(0, len(TAUS))))
-        fn = _random_fn(rng, kinds=("affine", "abs", "step", "mod"), positive=(k % 2 == 0))
+        cover = dict(geo, h=h, w=w, sy=geo["sy"] * 2, sx=geo["sx"] * 3, oy=abs(geo["oy"]) + 6, ox=abs(geo["ox"]) + 10)  # decoy too
+        fn = _random_fn(rng, dict(geo, h=h, w=w), kinds=("affine", "abs", "step", "mod", "ind", "disc", "floor"),
+                        positive=(k % 2 == 0), summed=max(sched) ** 2, factor=100, bound_geo=cover)
         fa = ((1, 2), (3, 4), (99, 100), (9, 10))[int(rng.integers(0, 4))]
         ra = (-1, -1, 1, 5)[int(rng.integers(0, 4))]
         out.append(dict(h=h, w=w, u=u, **geo, fn=fn, sched=sched, fa=list(fa), ra=int(ra), den=max(sched) ** 2,
@@ -793,23 +890,28 @@ GEOMS = (G0, G1, G2)
 
 
 def families(quick):
-    """(H, W, sub sizes, uniform-only, geometries): every mask of the frame x every sub-size map x every geometry."""
-    F = ALL_SUBS
+    """(H, W, sub sizes S, selection, geometries): every mask of the frame x every selected sub-size map x every geometry.
+    selection: "all" = every per-pixel map over S, "uniform" = one size for all pixels, "ambiguous" = every non-uniform
+    per-pixel map over S whose number of sub-pixels equals that of some uniform map (OverSample!TotalLooksUniform)."""
+    F, E = ALL_SUBS, SUBS18
     if quick:
-        return [(1, 1, F, False, GEOMS), (1, 2, F, False, (G1, G2)), (2, 1, F, False, (G1, G2)),
-                (1, 3, F, False, (G1,)), (3, 1, F, False, (G2,)), (2, 2, (1, 2, 3), False, (G1,)),
-                (2, 3, (2, 8), True, (G2,)), (3, 2, (3, 4), True, (G1,)), (3, 3, (2,), True, (G2,))]
-    return [(1, 1, F, False, GEOMS), (1, 2, F, False, GEOMS), (2, 1, F, False, GEOMS), (1, 3, F, False, GEOMS),
-            (3, 1, F, False, GEOMS), (2, 2, F, False, (G1, G2)), (2, 3, (1, 2, 3), False, (G1,)), (3, 2, (1, 2, 4), False, (G2,)),
-            (2, 3, F, True, GEOMS), (3, 2, F, True, GEOMS), (3, 3, F, True, (G1, G2)), (3, 3, (1, 2), False, (G1,)),
-            (1, 4, F, False, (G2,))]
+        return [(1, 1, E, "all", GEOMS), (1, 2, E, "all", (G1, G2)), (2, 1, E, "all", (G1,)),
+                (1, 3, (1, 2, 3, 5, 7, 8), "all", (G1,)), (3, 1, (1, 2, 4), "all", (G2,)), (2, 2, (1, 2, 3), "all", (G1,)),
+                (2, 2, E, "ambiguous", (G2,)), (1, 4, E, "ambiguous", (G1,)),
+                (2, 3, (2, 8), "uniform", (G2,)), (3, 2, (3, 4), "uniform", (G1,)), (3, 3, (2,), "uniform", (G2,))]
+    return [(1, 1, E, "all", GEOMS), (1, 2, E, "all", GEOMS), (2, 1, E, "all", GEOMS), (1, 3, E, "all", (G1, G2)),
+            (3, 1, E, "all", (G2,)), (2, 2, F, "all", (G1,)), (2, 2, (1, 3, 5, 7), "all", (G2,)), (1, 4, (1, 5, 6, 7), "all", (G1,)),
+            (2, 2, E, "ambiguous", GEOMS), (1, 4, E, "ambiguous", (G1, G2)), (1, 5, E, "ambiguous", (G2,)), (2, 3, (1, 3, 5, 7), "ambiguous", (G1,)),
+            (2, 3, (1, 2, 3), "all", (G1,)), (3, 2, (1, 2, 4), "all", (G2,)),
+            (2, 3, E, "uniform", GEOMS), (3, 2, E, "uniform", GEOMS), (3, 3, E, "uniform", (G1, G2)), (3, 3, (1, 2), "all", (G1,))]
 
 
 def _family_count(fams):
+    """Upper bound of the number of enumerated instances (selections only remove maps)."""
     tot = 0
-    for h, w, s, uni, gs in fams:
+    for h, w, s, sel, gs in fams:
         for ncell in range(1, h * w + 1):
-            tot += math.comb(h * w, ncell) * (len(s) if uni else len(s) ** ncell) * len(gs)
+            tot += math.comb(h * w, ncell) * (len(s) if sel == "uniform" else len(s) ** ncell) * len(gs)
     return tot
 
 
@@ -832,7 +934,7 @@ def run(ctx):
     fams = families(quick)
     sim_scheds = [(2, 4), (4, 2), (2, 4, 8), (4, 2, 8), (2, 8, 16), (2, 4, 8, 16), (16, 2, 8, 4)]
     ctx.bounds = {
-        "A_families(H,W,sub sizes,uniform-only,geometries(my,mx,oy,ox))": [[h, w, list(s), uni, [list(g) for g in gs]] for h, w, s, uni, gs in fams], "A_random_instances": 60 if quick else 600, "A_random_max_side": 6,
+        "A_families(H,W,sub sizes,selection,geometries(my,mx,oy,ox))": [[h, w, list(s), sel, [list(g) for g in gs]] for h, w, s, sel, gs in fams], "A_random_instances": 60 if quick else 600, "A_random_max_side": 6,
         "B_exhaustive": "np<=2 x schedule length 2 (fa 1/2, 3/4); np=1 x lengths 3,4" if quick else "np<=2 x length 2; np=1 x length 4; np<=2 x length 3 and np<=3 x length 2 with values -2,0,1,2",
         "B_values": list(VALUES), "B_fa": [list(f) for f in FAS], "B_ra": ["none", 1],
         "B_simulated_behaviours": 240 if quick else 2000, "B_simulate_schedules": [list(s) for s in sim_scheds], "B_simulate_np": 3,
@@ -934,7 +1036,8 @@ def run(ctx):
     ctx.assumptions = [
         "coordinates, scales and origins on the tick lattice (scales multiples of 4*lcm(sub sizes) ticks); tick length drawn from "
         "dyadic and non-dyadic reals; alpha rejects anything further than 1e-6 from the lattice",
-        "user functions are integer-valued functions of the lattice point (affine, quadratic, |.|, step, mod) or table functions; "
+        "user functions are integer-valued functions of the lattice point (affine, quadratic, |.|, step, mod, half-plane and "
+        "top-hat indicators, floor staircases) returned as float64, int64 or bool arrays, or table functions (float64/int64); "
         "iterate schedules use pairwise distinct power-of-two sub sizes >= 2 so that binned table values are exact and the "
         "probe can recognise the level from the sub-pixel spacing",
         "the first schedule entry may be compared with the plain sub-size-1 evaluation (the documented scheme, which the machine "
